@@ -48,7 +48,9 @@ SPECS = {
              "MaxConcurrency 0..len+1, Task/Wait/Pass iterators) whose branches all succeed, run under a seeded "
              "schedule policy plus the complete set of completion-order permutations for fan-out <= 4 (slice marked "
              "exhaustive) and a slice in which the same Parallel/Map state is entered 2-3 times by a counting loop with a "
-             "different completion order in every pass; the terminal output must equal the reference model's (position i = branch/item i), the "
+             "different completion order in every pass, and a slice in which one iteration/branch fails into a Catch inside "
+             "the iteration and sits in its fallback Task while the siblings (and, with MaxConcurrency, the rest of its "
+             "batch) finish; the terminal output must equal the reference model's (position i = branch/item i), the "
              "multiset of task requests must equal the model's (each item processed once), the fan-out state may exit "
              "only after all of its branches ended, and iterations in flight never exceed MaxConcurrency; distinct = "
              "distinct (scenario, interleaving) hashes"),
@@ -232,6 +234,8 @@ def run_one(item, extra):
             return run_loop(prop, item[1])
         if kind == "hand":
             return run_hand(prop, item[1])
+        if kind == "caught":
+            return run_caught(prop, item[1])
         if kind == "nested":
             from gen import corpus
             cfg = E.policy_cfg(item[2])
@@ -329,6 +333,61 @@ def loop_scenario(i):
     return seed, scn
 
 
+def caught_scenario(i):
+    """A Map (MaxConcurrency batches) or Parallel one of whose iterations/branches fails into a Catch INSIDE the
+    iteration and spends time in the fallback while its siblings finish: the slot of that iteration is not done until
+    the fallback has ended - no early next batch, no early join."""
+    seed = common.run_seed(8200000 + i)
+    rng = random.Random(seed)
+    fn_arn = E.GM.FN_ARN
+    k = rng.randint(2, 5)
+    bad = rng.randrange(k)
+    via = rng.choice(["error", "timeout"])
+    fb_delay = rng.choice([1.0, 2.0, 4.0])
+    work = {"Type": "Task", "Resource": fn_arn + "work", "End": True,
+            "Catch": [{"ErrorEquals": ["States.ALL"], "ResultPath": "$.err", "Next": "FB"}]}
+    if via == "timeout":
+        work["TimeoutSeconds"] = 1
+    sub = {"StartAt": "C", "States": {
+        "C": {"Type": "Choice", "Choices": [{"Variable": "$.bad", "BooleanEquals": True, "Next": "B"}], "Default": "G"},
+        "G": {"Type": "Task", "Resource": fn_arn + "good", "End": True},
+        "B": dict(work, Resource=fn_arn + "bad"),
+        "FB": {"Type": "Task", "Resource": fn_arn + "fallback", "ResultPath": "$.fb", "End": True}}}
+    dm = {}
+    for b in range(k):
+        dm[json.dumps({"b": b, "bad": b == bad}, sort_keys=True, separators=(",", ":"))] = rng.choice([0.0, 0.5, 1.0, 1.5])
+    script = {"good": [{"ok": {"op": "tag"}, "delay_map": dm}],
+              "bad": [{"err": "E.Alpha", "msg": "no", "delay": 0.5}] if via == "error" else [{"noreply": True}],
+              "fallback": [{"ok": {"op": "const", "value": "recovered"}, "delay": fb_delay}], "after": [{"ok": {"op": "echo"}}]}
+    if rng.random() < 0.7:
+        fan = {"Type": "Map", "ItemsPath": "$.items", "ResultPath": "$.r", "Next": "A", "ItemProcessor": sub,
+               "MaxConcurrency": rng.randint(1, k)}
+    else:
+        def branch(b):
+            # the iterator above with state names of its own (names are unique across a machine), fed by a Pass
+            txt = json.dumps(sub)
+            for nm in ("C", "G", "B", "FB"):
+                txt = txt.replace('"%s"' % nm, '"%s%d"' % (nm, b))
+            m = json.loads(txt)
+            m["States"]["S%d" % b] = {"Type": "Pass", "Parameters": {"b": b, "bad": b == bad}, "Next": "C%d" % b}
+            m["StartAt"] = "S%d" % b
+            return m
+        fan = {"Type": "Parallel", "ResultPath": "$.r", "Next": "A", "Branches": [branch(b) for b in range(k)]}
+    d = {"StartAt": "F", "States": {"F": fan, "A": {"Type": "Task", "Resource": fn_arn + "after", "End": True}}}
+    cfg = E.policy_cfg(rng.choice(ALL_POLICIES))
+    cfg["execution_ttl"] = 600
+    inp = {"items": [{"b": b, "bad": b == bad} for b in range(k)], "one": [1]}
+    scn = {"machines": {"m0": {"definition": d, "type": rng.choice(["STANDARD", "EXPRESS"]), "family": "caught-inside"}},
+           "executions": [{"machine": "m0", "input": inp, "name": "e0"}],
+           "script": script, "functions": sorted(script.keys()), "config": cfg}
+    return seed, scn
+
+
+def run_caught(prop, i):
+    seed, scn = caught_scenario(i)
+    return check(prop, scn, seed, extra_probes={"error-caught-inside-an-iteration": 1}, judge_all=True)
+
+
 def run_loop(prop, i):
     seed, scn = loop_scenario(i)
     return check(prop, scn, seed, extra_probes={"fan-out-re-entered-in-a-loop": 1}, judge_all=True)
@@ -378,7 +437,8 @@ def main_for(prop, argv, extra_items=()):
         items = [("hand", j) for j in range(300 if tier == "quick" else 12000)] + items
     if prop == "C05":
         pi = perm_items(4)
-        items = pi + [("loop", j) for j in range(200 if tier == "quick" else 8000)] + items
+        items = pi + [("loop", j) for j in range(200 if tier == "quick" else 8000)] + \
+            [("caught", j) for j in range(250 if tier == "quick" else 10000)] + items
         extra_cov["permutation_slice"] = {"exhaustive": True, "cases": len(pi),
                                           "what": "every completion order of k<=4 branches/items x Parallel and Map "
                                                   "with every MaxConcurrency 0..k+1"}
